@@ -23,6 +23,7 @@ template <class T> static bool probe(const po::value_semantic* s, const char* tn
 static Reg describe(const po::value_semantic* s) {
     Reg r; r.type = "other";
     if (probe<float>(s, "f32", r) || probe<double>(s, "f64", r) || probe<int32_t>(s, "i32", r) || probe<uint32_t>(s, "u32", r) || probe<int64_t>(s, "i64", r) || probe<uint64_t>(s, "u64", r) || probe<bool>(s, "b", r)) return r;
+    if (probe<unsigned char>(s, "c8", r) || probe<signed char>(s, "c8", r) || probe<char>(s, "c8", r)) return r;      // character types: boost reads one character, not a number
     if (auto* t = dynamic_cast<const po::typed_value<std::string>*>(s)) {
         r.type = "str"; r.store_to = t->m_store_to; r.composing = t->m_composing; r.multitoken = t->m_multitoken; r.zero_tokens = t->m_zero_tokens;
         if (!t->m_default_value.empty()) { r.has_default = true; std::string d = boost::any_cast<std::string>(t->m_default_value); r.dflt = "s"; for (unsigned char c : d) { char b[4]; snprintf(b, 4, "%02x", c); r.dflt += b; } }
@@ -50,7 +51,7 @@ static std::string var_bits(const Reg& r) {
     if (!r.store_to) return "-";
     if (r.type == "f32" || r.type == "i32" || r.type == "u32") return bits_of(*(const uint32_t*)r.store_to);
     if (r.type == "f64" || r.type == "i64" || r.type == "u64") return bits_of(*(const uint64_t*)r.store_to);
-    if (r.type == "b") return bits_of(*(const uint8_t*)r.store_to);
+    if (r.type == "b" || r.type == "c8") return bits_of(*(const uint8_t*)r.store_to);
     if (r.type == "str") { std::string s = "s"; for (unsigned char c : *(const std::string*)r.store_to) { char b[4]; snprintf(b, 4, "%02x", c); s += b; } return s; }
     if (r.type == "vf32") { std::string s = "v"; for (float f : *(const std::vector<float>*)r.store_to) s += bits_of(f) + ","; return s; }
     return "-";
